@@ -48,7 +48,7 @@ type DElems struct {
 	One  DItf     `PluginElement:"DThing?"`
 	Def  DItf     `PluginElement:"DThing2,default=DItemB"`
 	Many []*DItem `PluginElement:"DList?"`
-	Dfl  []*DItem `PluginElement:"DList2,default=DItem;DItem;DItem"`
+	Dfl  []*DItem `PluginElement:"DList2,default=DItem; DItem ;;DItem"`
 }
 
 var dPublished *DElems
